@@ -12,6 +12,7 @@ def main():
     ap.add_argument("pid")
     ap.add_argument("--tier", default=os.environ.get("VERIF_TIER", "quick"), choices=["quick", "thorough"])
     ap.add_argument("--replay", default=None)
+    ap.add_argument("--candidates-only", action="store_true", help="(internal) run the exploration, print the clauses of its unlisted candidates as JSON, confirm nothing, write nothing")
     a = ap.parse_args()
     pid = a.pid.upper()
     try:
@@ -22,6 +23,11 @@ def main():
     if a.replay:
         sys.exit(core.run_replay(mod, a.replay))
     ctx = core.Ctx(pid, a.tier, seed, mod)
+    if a.candidates_only:
+        import json
+
+        print("CANDIDATES:" + json.dumps(sorted({c for c, _, _ in core.replay_explorer(mod, {"tier": a.tier, "seed": seed})})))
+        sys.exit(0)
     try:
         mod.run(ctx)
     except Exception as ex:
